@@ -501,7 +501,12 @@ func parseReplay(s string) (probe, error) {
 
 func main() {
 	f := vh.ParseFlags()
+	f.Out, _ = filepath.Abs(f.Out)
+	// the in-process importer resolves packages (fmt, github.com/qiniu/x/xgo) with the go
+	// command in the current directory: use the module of the tree under test
+	os.Chdir(xrun.Repo())
 	o := vh.NewOut(f.Out)
+	o.Samples = []string{}
 	defer o.Close()
 	if f.Replay != "" {
 		p, err := parseReplay(f.Replay)
